@@ -1,6 +1,6 @@
 (* C08: the obligations of Properties.v, proved (statement for statement) *)
 From OlaBase Require Import Bytes.
-From C08 Require Import Gen Model Spec ListLemmas SacnTrack SacnProofs SacnThms ArtProofs ArtDistinct SeqInv TextSpec TextThm TextCheck WireProofs ShadowThm ArtText ArtStep NodeProofs ExtProofs.
+From C08 Require Import Gen Model Spec ListLemmas SacnTrack SacnProofs SacnThms ArtProofs ArtDistinct SeqInv TextSpec TextThm TextCheck WireProofs ShadowThm ArtText ArtStep NodeProofs ExtProofs MultiProofs.
 Local Open Scope N_scope.
 
 Lemma c08_consts_l :
@@ -279,4 +279,27 @@ Lemma c08_sacn_window_l :
        htp_of (map s_buf (l1 ++ l2)) (u_buf st') /\
        (forall x, In x (l1 ++ l2) -> s_cid x <> p_cid p)).
 Proof. split; [exact window_behind | exact window_terminate]. Qed.
+
+Lemma c08_sacn_universes_independent_l :
+  (forall ip h S u, ilook (irun ip S h) u = urun ip u (ilook S u) h) /\
+  (forall ip u h st,
+     urun ip u (Some st) (map (fun np : N * pkt => (fst np, IPkt (snd np))) h) =
+     Some (run (mkCfg ip u) st h)) /\
+  (forall ip now S u st fresh,
+     ilook S u = Some st ->
+     exists st', ilook (fst (inflator_op ip now S (IReg u fresh))) u = Some st' /\
+                 u_srcs st' = u_srcs st /\ u_active st' = u_active st /\ (fresh = false -> st' = st)) /\
+  (forall ip now S u u', u' <> u ->
+     ilook (fst (inflator_op ip now S (IUnreg u))) u' = ilook S u' /\
+     ilook (fst (inflator_op ip now S (IUnreg u))) u = None).
+Proof.
+  split; [intros; apply irun_proj|]. split; [intros; apply urun_packets|]. split; [exact rereg_keeps|].
+  intros ip now S u u' H. rewrite !inflator_op_proj. cbn [ustep]. rewrite N.eqb_refl.
+  apply not_eq_sym, N.eqb_neq in H. rewrite H. auto.
+Qed.
+
+Lemma c08_artnet_send_independent_l :
+  forall now nd b,
+    node_op now nd (NSendFail b) = (nd, map (fun _ => false) (n_ports nd)).
+Proof. reflexivity. Qed.
 
